@@ -24,6 +24,7 @@ func (s *Solver) checkFull(pc []string, capMs int, extra ...string) string {
 	if s.dead {
 		return "unknown"
 	}
+	s.sync()
 	if capMs != s.curTimeout {
 		s.send(fmt.Sprintf("(set-option :timeout %d)", capMs))
 		s.curTimeout = capMs
@@ -653,6 +654,21 @@ func init() {
 			return ret(f, x, Tuple{BigV{Nil: true, T: "0"}, boolc(false)})
 		}
 		return ret(f, x, Tuple{BigV{T: smtInt(n)}, boolc(true)})
+	})
+	reg("math/bits.Add64", func(e *Exec, s *State, f *Frame, x *ssa.Call, a []Val) ([]*State, bool) {
+		t := tAdd(tAdd(a[0].(Sym).S, a[1].(Sym).S), a[2].(Sym).S)
+		ov := tCmp(">=", t, "18446744073709551616")
+		return ret(f, x, Tuple{Sym{S: tIte(ov, tSub(t, "18446744073709551616"), t)}, Sym{S: tIte(ov, "1", "0")}})
+	})
+	reg("math/bits.Div64", func(e *Exec, s *State, f *Frame, x *ssa.Call, a []Val) ([]*State, bool) {
+		hi, lo, y := a[0].(Sym).S, a[1].(Sym).S, a[2].(Sym).S
+		bad := tOr(tEq(y, "0"), tCmp("<=", y, hi))
+		return e.fork(s, bad, func(t *State) {
+			e.runtimePanic(t, "integer overflow / divide by zero in bits.Div64")
+		}, func(t *State) {
+			q, r := e.divNonneg(t, tAdd(tMul(hi, "18446744073709551616"), lo), y)
+			top(t).Regs[x] = Tuple{Sym{S: q}, Sym{S: r}}
+		}), false
 	})
 	// concrete string helpers (panic classification in utils.IsOverflow)
 	reg("strings.ToLower", func(e *Exec, s *State, f *Frame, x *ssa.Call, a []Val) ([]*State, bool) {
